@@ -1130,7 +1130,11 @@ def oracle(case):
             # preconditions of the property (a layout never violates them; a shrunk replay might)
             js = op["scr"]
             cx0, cy0 = js.get("cur") or [0, 0]
-            if js["h"] > vt.H - vt.top or not (cx0 < max(W, 1) and cy0 < max(1, js["h"])) or \
+            # (a wide character whose right half would lie beyond the last column is excluded by the property:
+            #  what a terminal does with it when autowrap is off is not defined by the terminal model.  Real
+            #  layouts produce it rarely: Window with wrap_lines=False and a line wider than the window.)
+            straddle = any(c[1] < W < c[1] + (Char(c[2], "").width or 0) for c in js["cells"])
+            if js["h"] > vt.H - vt.top or not (cx0 < max(W, 1) and cy0 < max(1, js["h"])) or straddle or \
                     any(c[0] >= js["h"] for c in js["cells"]):
                 SKIPS.append((f"op#{i}", js["h"], vt.H - vt.top, (cx0, cy0)))
                 if case.get("from_layout") and (any(c[0] >= js["h"] for c in js["cells"]) or cx0 >= max(W, 1)):
